@@ -709,6 +709,89 @@ def run_wide_matrix(res, tier):
     res.notes.append(f'mutation matrix: {len(items)} (container, callback, position, mutation, traversal) cells, each in a forked child stream')
 
 
+
+# ---------------------------------------------------------------- custom nodes: children vs path entries
+class ENode:
+    """custom node whose flatten function returns nc children and ne path entries"""
+
+    def __init__(self, nc, ne, ckind, ekind, depth=0):
+        self.nc, self.ne, self.ckind, self.ekind, self.depth = nc, ne, ckind, ekind, depth
+
+
+def enode_flatten(x):
+    def child(i):
+        return ENode(1, 1, 'tuple', 'tuple', 0) if (x.depth and i == 0) else Lf(i)
+    if x.ckind == 'tuple':
+        ch = tuple(child(i) for i in range(x.nc))
+    elif x.ckind == 'list':
+        ch = [child(i) for i in range(x.nc)]
+    else:
+        ch = (child(i) for i in range(x.nc))
+    if x.ekind == 'none':
+        return ch, 'm'
+    ent = tuple('e%d' % i for i in range(x.ne))
+    return ch, 'm', (list(ent) if x.ekind == 'list' else ent)
+
+
+ENT_TRAV = ['tree_flatten', 'tree_flatten_with_path', 'tree_flatten_with_accessor', 'tree_iter', 'tree_leaves',
+            'tree_structure', 'tree_paths', 'tree_accessors', 'tree_map', 'tree_map_with_path', 'tree_flatten_one_level',
+            'flatten_up_to', 'prefix_errors']
+
+
+def entries_run(item):
+    nc, ne, ckind, ekind, depth, wrap_in, trav = item
+    node = ENode(nc, ne, ckind, ekind, depth)
+    tree = node if wrap_in == 'bare' else (Lf(-1), node, Lf(-2)) if wrap_in == 'tuple' else {'a': node, 'b': [node]}
+    kw = {'namespace': 'c16e'}
+    f = {'tree_flatten': lambda: len(optree.tree_flatten(tree, **kw)[0]),
+         'tree_flatten_with_path': lambda: len(optree.tree_flatten_with_path(tree, **kw)[0]),
+         'tree_flatten_with_accessor': lambda: len(optree.tree_flatten_with_accessor(tree, **kw)[0]),
+         'tree_iter': lambda: len(list(optree.tree_iter(tree, **kw))),
+         'tree_leaves': lambda: len(optree.tree_leaves(tree, **kw)),
+         'tree_structure': lambda: optree.tree_structure(tree, **kw).num_leaves,
+         'tree_paths': lambda: len(optree.tree_paths(tree, **kw)),
+         'tree_accessors': lambda: len(optree.tree_accessors(tree, **kw)),
+         'tree_map': lambda: len(optree.tree_leaves(optree.tree_map(lambda x: x, tree, **kw), **kw)),
+         'tree_map_with_path': lambda: len(optree.tree_leaves(optree.tree_map_with_path(lambda p, x: x, tree, **kw), **kw)),
+         'tree_flatten_one_level': lambda: len(optree.tree_flatten_one_level(node, **kw)[0]),
+         'flatten_up_to': lambda: len(optree.tree_structure((0, 0, 0) if wrap_in == 'tuple' else 0, **kw).flatten_up_to(tree)),
+         'prefix_errors': lambda: len(optree.prefix_errors(tree, tree, **kw))}[trav]
+    return ('ok', f())
+
+
+def run_entries_matrix(res, tier):
+    optree.register_pytree_node(ENode, enode_flatten, lambda m, ch: ENode(len(ch), len(ch), 'tuple', 'tuple'), namespace='c16e')
+    sizes = [0, 1, 2, 3, 40, 3000, 400000] if tier != 'asan' else [0, 1, 2, 3, 40]
+    items = []
+    for nc in sizes:
+        for ne in ([0, 1, 2, 3, 41] if nc < 3000 else [1, 3]):
+            for ckind in ('tuple', 'list', 'gen'):
+                for ekind in ('tuple', 'list', 'none'):
+                    if ekind == 'none' and ne != 0:
+                        continue
+                    for depth in ((0, 1) if nc in (2, 3) else (0,)):
+                        for wrap_in in (('bare', 'tuple', 'dict') if nc < 3000 else ('bare',)):
+                            for trav in ENT_TRAV:
+                                if nc >= 3000 and trav in ('prefix_errors', 'tree_map_with_path', 'tree_accessors', 'tree_flatten_with_accessor'):
+                                    continue
+                                items.append((nc, ne, ckind, ekind, depth, wrap_in, trav))
+    outs = progress_forked(items, entries_run, 60, res, 'children/entries matrix')
+    for it, o in zip(items, outs):
+        res.evaluations += 1
+        if o is None:
+            continue
+        nc, ne, ckind, ekind, depth, wrap_in, trav = it
+        res.count('entries_%s' % o[0])
+        consistent = ekind == 'none' or nc == ne
+        if o[0] == 'raised' and o[1] in ('SystemError', 'InternalError'):
+            res.fail('a custom node whose flatten function returns mismatching children / path entries raised an internal error',
+                     repr(it), str(o))
+        elif o[0] == 'raised' and consistent and not (trav == 'prefix_errors'):
+            res.fail('a custom node with as many path entries as children (or none declared) was rejected', repr(it), str(o))
+        elif o[0] == 'ok' and not consistent and trav not in ('flatten_up_to',):
+            res.fail('a custom node with a different number of path entries than children was accepted', repr(it), str(o))
+    res.notes.append(f'children/entries matrix: {len(items)} (children, entries, containers, nesting, traversal) cells in forked child streams')
+
 # ---------------------------------------------------------------- mutation of the leaves handed to unflatten
 class ULf:
     """leaf for the unflatten matrix: weak-referenceable, so that a freed leaf can be told from a live one"""
@@ -1052,6 +1135,7 @@ def run(res, tier, seed):
                         ('mutation scripts', lambda: run_mutation_correspondence(res, 'quick')),
                         ('mutation matrix', lambda: run_wide_matrix(res, 'quick')),
                         ('unflatten mutation matrix', lambda: run_unflatten_matrix(res, 'quick')),
+                        ('children/entries matrix', lambda: run_entries_matrix(res, 'asan')),
                         ('unflatten mutation scripts', lambda: run_unflatten_scripts(res, 'quick')),
                         ('treespec arguments', lambda: run_spec_args(res, 'quick', seed)),
                         ('argument confusion', lambda: run_confusion(res, 'quick', seed))):
@@ -1063,6 +1147,7 @@ def run(res, tier, seed):
                     ('mutation scripts', lambda: run_mutation_correspondence(res, tier)),
                     ('mutation matrix', lambda: run_wide_matrix(res, tier)),
                     ('unflatten mutation matrix', lambda: run_unflatten_matrix(res, tier)),
+                    ('children/entries matrix', lambda: run_entries_matrix(res, tier)),
                     ('unflatten mutation scripts', lambda: run_unflatten_scripts(res, tier)),
                     ('treespec arguments', lambda: run_spec_args(res, tier, seed)),
                     ('argument confusion', lambda: run_confusion(res, tier, seed))):
